@@ -168,10 +168,33 @@ class Flow:
         return self.cfg.node_of(ast_node)
 
     # ------------------------------------------------------------------ expansion
-    def expand(self, expr, at: Optional[int] = None, depth: int = 12, _stack=None, after=False):
+    def expand(self, expr, at: Optional[int] = None, depth: int = 12, _stack=None, after=False, phi=True, opaque=(), ssa=False):
         if at is None:
             at = self.cfg.node_of(expr)
-        return _Expander(self, depth).run(expr, at, after)
+        return _Expander(self, depth, phi, set(opaque), ssa).run(expr, at, after)
+
+    def expand_ssa(self, expr, at: Optional[int] = None, depth: int = 10):
+        """Single-definition expansion; a name with several reaching definitions becomes
+        `name#<def nodes>` so that two occurrences print alike iff the same definitions reach both
+        (same value within one pass through the code)."""
+        return self.expand(expr, at, depth=depth, phi=False, ssa=True)
+
+    def mutated_names(self) -> Set[str]:
+        """Local names that are mutated in place (method calls like append / subscript stores / del)."""
+        out = set()
+        MUT = {"append", "extend", "insert", "pop", "remove", "clear", "sort", "reverse", "update", "add", "discard"}
+        for n in own_nodes(self.fi.node):
+            if isinstance(n, ast.Call) and isinstance(n.func, ast.Attribute) and n.func.attr in MUT:
+                if isinstance(n.func.value, ast.Name):
+                    out.add(n.func.value.id)
+            elif isinstance(n, (ast.Subscript,)) and isinstance(n.ctx, (ast.Store, ast.Del)) and isinstance(n.value, ast.Name):
+                out.add(n.value.id)
+        return out
+
+    def expand_shallow(self, expr, at: Optional[int] = None, depth: int = 8):
+        """Single-definition expansion only: names with several reaching definitions or in-place
+        mutation stay opaque (readable, loop-safe terms for guard roles)."""
+        return self.expand(expr, at, depth=depth, phi=False, opaque=self.mutated_names())
 
     def expand_name(self, name: str, at: int, after=False, depth=12):
         return self.expand(ast.Name(id=name, ctx=ast.Load()), at, depth=depth, after=after)
@@ -196,9 +219,12 @@ def _own_exprs(node):
 
 
 class _Expander:
-    def __init__(self, flow: Flow, depth: int):
+    def __init__(self, flow: Flow, depth: int, phi: bool = True, opaque=(), ssa: bool = False):
         self.flow = flow
         self.depth = depth
+        self.phi = phi
+        self.opaque = opaque
+        self.ssa = ssa
 
     def run(self, expr, at, after=False):
         return self._x(expr, at, self.depth, frozenset(), frozenset(), after)
@@ -210,9 +236,15 @@ class _Expander:
                 return ast.Name(id=e.id, ctx=ast.Load())
             if not flow.is_local(e.id):
                 return ast.Name(id=e.id, ctx=ast.Load())
+            if e.id in self.opaque:
+                return ast.Name(id=e.id, ctx=ast.Load())
             defs = flow.reaching(e.id, at, after=after)
             if not defs:
                 return mark("undef", ast.Constant(e.id))
+            if not self.phi and (len(defs) > 1 or defs[0].kind in ("aug", "with", "except", "def", "import", "global")):
+                if self.ssa:
+                    return ast.Name(id=e.id + "#" + "_".join(str(d.nid) for d in defs), ctx=ast.Load())
+                return ast.Name(id=e.id, ctx=ast.Load())
             if depth <= 0:
                 return mark("deep", ast.Constant(e.id))
             terms = []
